@@ -83,6 +83,7 @@ class Executor:
                 if o:
                     self.is_output[(e, t)] = True
         self.persistent = set(persistent)
+        self.pending = []
 
     # -- helpers ------------------------------------------------------------
     def bpv(self, level, tensor):
@@ -143,7 +144,17 @@ class Executor:
             self._storage(nodes, i, ranges, path)
         elif k == "seq":
             for b in n["branches"]:
+                leaf = not any(x["k"] == "seq" for x in b)
+                if leaf:
+                    for d in self.pending:
+                        if d["count"] == d["first"]:
+                            self._alloc(d["level"], d["tensor"], d["bits"])
                 self._exec(b, 0, ranges, path, None)
+                if leaf:
+                    for d in self.pending:
+                        if d["count"] == d["last"]:
+                            self._free(d["level"], d["tensor"], d["bits"])
+                        d["count"] += 1
         elif k == "compute":
             self._compute(n, ranges, path)
         else:
@@ -158,6 +169,7 @@ class Executor:
         kind = self.comps[level]["kind"]
         below = self._einsum_below(nodes[i + 1:])
         done = []
+        my_pending = []
         for t in n["tensors"]:
             es = self._tensor_einsums(t, below)
             if not es:
@@ -172,11 +184,19 @@ class Executor:
             tile = set(_box(proj, ranges))
             nvals = len(tile)
             bits = nvals * self.bpv(level, t)
-            # occupancy
-            if not (t in self.persistent and (level, t) in self._persist_alloc()):
-                self.res.live_bits[level] += bits
-                self.res.peak_bits[level] = max(self.res.peak_bits[level], self.res.live_bits[level])
-                self.res.alloc_log.append(("alloc", level, t, bits))
+            # occupancy: a node directly above a split (no loop in between) holds its tile only
+            # from the first to the last branch that uses the tensor; otherwise for its whole scope
+            deferred = self._directly_above_seq(nodes, i)
+            if deferred:
+                leafs = self._leaf_seq(nodes, i + 1, ranges)
+                users = [j for j, e in enumerate(leafs) if (e, t) in self.proj]
+                if users:
+                    self.pending.append({"level": level, "tensor": t, "bits": bits, "count": 0,
+                                         "first": users[0], "last": users[-1], "node": id(n)})
+                    my_pending.append(self.pending[-1])
+                bits = 0
+            else:
+                self._alloc(level, t, bits)
             if parent is not None:
                 # fill from the parent holder
                 is_out = bool(writers)
@@ -204,11 +224,53 @@ class Executor:
                 self.res.values[(level, t, "read")] += nvals
                 self.res.values[(parent, t, "write")] += nvals
                 self._charge_tolls(tolls, t, "up", nvals)
-            self.res.live_bits[level] -= bits
-            self.res.alloc_log.append(("free", level, t, bits))
+            if bits:
+                self._free(level, t, bits)
+        for d in my_pending:
+            self.pending.remove(d)
 
-    def _persist_alloc(self):
-        return ()
+    def _leaf_seq(self, nodes, i, ranges):
+        """einsum names of the leaf-branch executions below nodes[i:], in execution order; a leaf
+        branch (a split branch without a nested split) counts once, whatever loops it contains"""
+        out = []
+        if i >= len(nodes):
+            return out
+        n = nodes[i]
+        if n["k"] == "loop":
+            trips = -(-ranges[n["rv"]][1] // n["tile"])
+            r2 = dict(ranges)
+            r2[n["rv"]] = (ranges[n["rv"]][0], min(n["tile"], ranges[n["rv"]][1]))
+            return self._leaf_seq(nodes, i + 1, r2) * trips
+        if n["k"] == "seq":
+            for b in n["branches"]:
+                if any(x["k"] == "seq" for x in b):
+                    out += self._leaf_seq(b, 0, ranges)
+                else:
+                    out += self._einsum_below(b)
+            return out
+        if n["k"] == "compute":
+            return [n["einsum"]]
+        return self._leaf_seq(nodes, i + 1, ranges)
+
+    def _alloc(self, level, t, bits):
+        self.res.live_bits[level] += bits
+        self.res.peak_bits[level] = max(self.res.peak_bits[level], self.res.live_bits[level])
+        self.res.alloc_log.append(("alloc", level, t, bits))
+
+    def _free(self, level, t, bits):
+        self.res.live_bits[level] -= bits
+        self.res.alloc_log.append(("free", level, t, bits))
+
+    @staticmethod
+    def _directly_above_seq(nodes, i):
+        for n in nodes[i + 1:]:
+            if n["k"] == "loop":
+                return False
+            if n["k"] == "seq":
+                return True
+            if n["k"] == "compute":
+                return False
+        return False
 
     def _compute(self, n, ranges, path):
         e, level = n["einsum"], n["level"]
